@@ -440,6 +440,63 @@ def fam_args(sess):
                             family=fam, queries=box.get('paths', 1))
 
 
+def fam_args_all(sess):
+    """every scalar function of the Function enum (read from the source) on ill-typed / empty / negative / huge first and second
+    arguments: no argument reaches a panic. Paths that stop at an unmodelled library routine are noted, not counted as decided."""
+    prog = sess.prog
+    fam = 'args_all'
+    ex = sess.executor(unwind=10)
+    bad_args = ['x', '', '-1', '1.5', '99999999999999999999', 'NaN', '0', '-2147483648', '2020-13-45', '\u00e9']
+    names = [v if isinstance(v, str) else v[0] for v in prog.src.variants('Function')]
+    aggregates = {'Min', 'Max', 'Avg', 'Sum', 'Count', 'StdDevPop', 'StdDevSamp', 'VarPop', 'VarSamp'}
+    skip = aggregates | {'Random', 'CurrentUser', 'CurrentGroup', 'CurrentUid', 'CurrentGid', 'CurrentDate', 'Contains', 'HasXattr', 'Xattr', 'HasCapabilities', 'HasCapability'}
+    funcs = [n for n in names if n not in skip]
+    sess.bounds[fam] = {'functions': funcs, 'arguments': bad_args, 'positions': 'first argument (no further arguments), second argument, third argument (first = 2 / abc)'}
+    undecided = {}
+    viol = {}
+    npaths = [0]
+    for fname in funcs:
+        for pos in (0, 1, 2):
+            def run(ctx, fname=fname, pos=pos):
+                # the argument is a solver-chosen table entry made concrete at once (character-level routines need concrete text)
+                bad = Str(bad_args[ctx.concretize(ctx.fresh_bv('bad', 8), range(len(bad_args)))])
+                if pos == 0:
+                    return call_get_value(ctx, prog, fname, bad, [])
+                first = Str(['2', 'abc'][ctx.concretize(ctx.fresh_bv('first', 8), range(2))])
+                if pos == 1:
+                    return call_get_value(ctx, prog, fname, first, [bad])
+                return call_get_value(ctx, prog, fname, first, [Str('1'), bad])
+
+            def on_path(ctx, out, fname=fname, pos=pos):
+                npaths[0] += 1
+                if out[0] == 'panic':
+                    if not viol.get(fname):
+                        viol[fname] = True
+                        sql = prog_sql_name(fname)
+                        qs = []
+                        for a in bad_args:
+                            lit = a if a and re.fullmatch(r'[-0-9.]+', a) else "'%s'" % a
+                            qs.append('%s(%s)' % (sql, lit) if pos == 0 else ("%s(2, %s)" % (sql, lit) if pos == 1 else "%s(2, 1, %s)" % (sql, lit)))
+                            qs.append("%s('abc', %s)" % (sql, lit) if pos < 2 else "%s('abc', 1, %s)" % (sql, lit))
+                        sess.violated('args_all %s' % fname, 'args/panic/' + fname, out[1][:160], {'function': fname, 'position': pos}, cli_crash_replay(qs), fam)
+                elif out[0] == 'unmodelled':
+                    undecided[fname] = str(out[1])[:100]
+                elif out[0] not in ('ret', 'exit'):
+                    undecided[fname] = str(out)[:100]
+            ex.explore(run, on_path)
+    if undecided:
+        sess.notes.append('args_all: not decided beyond the argument handling (unmodelled library routine reached): %r' % undecided)
+    if not viol:
+        sess.discharged('args_all: %d functions x 10 arguments x 3 positions: no argument reaches a panic (%d functions end in unmodelled library code: see notes)' % (
+            len(funcs), len(undecided)), family=fam, queries=npaths[0])
+
+
+def prog_sql_name(fname):
+    return {'Substring': 'substr', 'FormatSize': 'format_size', 'FormatTime': 'format_time', 'ToBase64': 'to_base64', 'FromBase64': 'from_base64', 'ConcatWs': 'concat_ws',
+            'InitCap': 'initcap', 'LTrim': 'ltrim', 'RTrim': 'rtrim', 'DayOfWeek': 'dow', 'ContainsJapanese': 'contains_japanese', 'ContainsHiragana': 'contains_hiragana',
+            'ContainsKatakana': 'contains_katakana', 'ContainsKana': 'contains_kana', 'ContainsKanji': 'contains_kanji'}.get(fname, fname.lower())
+
+
 def main(sess):
     sess.engines = ['mirsym (MIR symbolic execution) + z3 (uninterpreted functions for library routines)']
     sess.assumptions += [
@@ -448,7 +505,7 @@ def main(sess):
         'SUBSTR is decided on concrete subjects with symbolic position / length',
     ]
     only = getattr(sess, 'only', None)
-    for name, f in (('wiring', fam_wiring), ('substr', fam_substr), ('args', fam_args)):
+    for name, f in (('wiring', fam_wiring), ('substr', fam_substr), ('args', fam_args), ('args_all', fam_args_all)):
         if not only or name in only:
             f(sess)
     if not only or 'e2e' in only:
